@@ -18,11 +18,17 @@ What is proved (all targets = any tree at all, all engines, all option combinati
   * "No such request returns a relation": the results above are `Except.error`.
   * "A rejected call leaves every existing relation unchanged": relations are immutable values of
     the model; for the implementation this is what C09's fingerprint monitoring checks.
-Partial: cross-engine joins without transfer (rejection depends on whether back-tracking finds a
-place; validated by the oracle), unsupported expressions that are first merged with an upstream
+  * cross-engine joins: `Join.apply(lhs, rhs)` on operands of different engines never returns a relation, and raises
+    `EngineError` whenever the columns are fine (`cross_engine_join_apply_rejected`, `..._raises_engine_error`);
+    `relation.join(fixed, backtrack=False, transfer=False)` from an iteration-engine relation to a relation of another
+    engine never returns a relation (`cross_engine_join_without_options_rejected`).
+Partial: cross-engine joins WITH back-tracking but without transfer (whether they are rejected depends on whether
+back-tracking finds a place - C03's `join_with_every_option_sound` says what is returned when they are not),
+unsupported expressions that are first merged with an upstream
 operation of the same kind.
 -/
 import DafRel.Lemmas.Build
+import DafRel.Lemmas.BacktrackJoin
 import DafRel.Bridge.Kernel
 import DafRel.Bridge.Ops
 import DafRel.Bridge.RelOps
@@ -122,6 +128,35 @@ theorem join_rejected_missing_predicate_column (st : Store) (t rhs : Rel) (pred 
         exact (Cols.mem_union _ _ c).mpr (Or.inl ((Cols.mem_diff _ _ c).mpr ⟨hc, hr⟩)))
       exact hl this
     simp [hreq, Except.map]
+
+/-- **A join of relations that live in different engines is never built by `Join.apply`.** -/
+theorem cross_engine_join_apply_rejected (st : Store) (fuel : Nat) (j : JoinOp) (l r : Rel)
+    (hne : l.engine ≠ r.engine) (res : BRes) : binaryApply st fuel (.join j) l r ≠ .ok res :=
+  binaryApply_join_cross_engine st fuel j l r hne res
+
+/-- ... and when `Join._begin_apply` finds nothing wrong with the columns, the exception is `EngineError`. -/
+theorem cross_engine_join_apply_raises_engine_error (st : Store) (fuel : Nat) (j : JoinOp) (l r : Rel)
+    (hne : l.engine ≠ r.engine) (op' : BOp) (hb : joinBeginApply j l r = .ok op') :
+    binaryApply st (fuel+2) (.join j) l r = .error .engine :=
+  binaryApply_join_cross_engine_error st fuel j l r hne op' hb
+
+/-- **`relation.join(fixed, backtrack=False, transfer=False)` across engines never returns a relation** (the target
+lives in an iteration engine, the fixed relation in any other engine; default preferred engine). -/
+theorem cross_engine_join_without_options_rejected (st : Store) (fuel : Nat) (p : PJoin) (t : Rel) (o : Opts)
+    (hpref : o.pref = none) (hbt : o.backtrack = false) (htr : o.transfer = false)
+    (hkt : t.engine.kind = .iter) (hne : p.fixed.engine ≠ t.engine)
+    (hfix0 : p.join.resolved = true → p.join.minCols.subset p.fixed.columns = true)
+    (res : Res) : applyOp st fuel (.pj p) t o ≠ .ok res :=
+  applyOp_pj_no_options_rejected st fuel p t o hpref hbt htr hkt hne hfix0 res
+
+/-- non-vacuity: two leaves of different engines sharing the key `a`: the columns are fine, the engines are not -/
+example :
+    let l : Rel := .leaf 1 ⟨0, .iter⟩ [⟨"a", true⟩] "L" 0 none true 0
+    let r : Rel := .leaf 2 ⟨1, .sql⟩ [⟨"a", true⟩] "R" 0 none true 0
+    l.engine ≠ r.engine ∧ (joinBeginApply ⟨.lit true, [], none⟩ l r).toOption.isSome = true ∧
+      (match binaryApply [] defaultFuel (.join ⟨.lit true, [], none⟩) l r with
+        | .error .engine => true
+        | _ => false) = true := by decide
 
 /-- **Slices**: negative start. -/
 theorem slice_rejected_negative (start : Int) (stop : Option Int) (h : start < 0) :
